@@ -10,6 +10,7 @@ package cryptoauth
 import (
 	"context"
 	"fmt"
+	"math/big"
 	"os"
 	"path/filepath"
 	"strconv"
@@ -60,6 +61,21 @@ func c17FuzzSeeds(scheme int) [][2][]byte {
 				continue
 			}
 			out = append(out, [2][]byte{append(append([]byte{sc.typeID}, d.pk...), d.sig...), msg})
+		}
+	}
+	if scheme == schemeSecp {
+		// genuine signatures constructed for boundary values of s (both encodings of each)
+		msg := []byte("verif raw message 0")
+		for i, tgt := range c17SecpSTargets {
+			pk, r, s, _, ok := c17SecpConstruct(poolSeed(schemeSecp, 100+i), msg, tgt)
+			if !ok {
+				continue
+			}
+			for _, v := range []*big.Int{s, new(big.Int).Sub(secpN, s)} {
+				rb, _ := be32(r)
+				sb, _ := be32(v)
+				out = append(out, [2][]byte{append(append(append([]byte{sc.typeID}, pk...), rb...), sb...), msg})
+			}
 		}
 	}
 	out = append(out, [2][]byte{{}, {}}, [2][]byte{{sc.typeID}, {}}, [2][]byte{make([]byte, 1+sc.pkLen+sc.sigLen), {}})
